@@ -1,4 +1,5 @@
 import QuillModel.Pattern.Calls
+import QuillModel.Pattern.Sinks
 import QuillModel.Drivers.Util
 /-!
 Correspondence driver for C12. Input: the lines printed by `harness/h3_pattern.cpp`
@@ -8,6 +9,9 @@ and `Pattern.applyRuntimeMeta` — the definitions the theorems of `Props/C12.le
 A `fmt` line with a `pre=` field (the timestamps, with their reference time texts, of the calls the real formatter
 handled before the observed one) is recomputed with `Pattern.formatLast`: the instance model of `Pattern/Calls.lean`
 run over those calls (decoy values, as in the harness) and then the observed call.
+An `mb` line (several loggers, sinks with and without override pattern, calls in a given order) is recomputed with
+`Pattern.callLines false` threaded through `Pattern.dispatch1` — the model of `Pattern/Sinks.lean`, whose rule is
+`patternFor`.
 -/
 namespace Drv.Pattern
 open _root_.Pattern
@@ -69,6 +73,8 @@ structure Tally where
   withSpec : Nat := 0
   beMultiPiece : Nat := 0
   beRuntime : Nat := 0
+  mbCases : Nat := 0
+  mbWithOverride : Nat := 0
 
 def countSub (s : Str) (a b : Char) : Nat :=
   match s with
@@ -147,6 +153,47 @@ def beObs (kv : List (String × String)) : String × Nat × Bool :=
         (s!"ok src={hexOfStr src} caller={hexOfStr caller} n={lines.length}" ++
           String.join (lines.map fun l => " " ++ hexOfStr l), pieces.length, kind == "rt")
 
+/-- `mb` line: loggers=<name>:<ml>:x<pat>,… sinks=-|<ml>:x<pat>,… attach=<k>.<k>,… calls=<l>:x<msg>,… -/
+def mbObs (kv : List (String × String)) : String × Nat × Nat :=
+  let lgs := (((kv.lookup "loggers").getD "").splitOn ",").filterMap fun t =>
+    match t.splitOn ":" with
+    | [name, ml, p] => (strOfHex p).map fun pat => (name.toList, ({ pattern := pat, ml := ml != "0" } : FmtOpts))
+    | _ => none
+  let sks : List SinkCfg := (((kv.lookup "sinks").getD "").splitOn ",").map fun t =>
+    match t.splitOn ":" with
+    | [ml, p] => { override := (strOfHex p).map fun pat => { pattern := pat, ml := ml != "0" } }
+    | _ => { override := none }
+  let att : List (List Nat) := (((kv.lookup "attach").getD "").splitOn ",").map fun t =>
+    (t.splitOn ".").filterMap fun x => x.toNat?
+  let cfg : Config := {
+    loggers := (lgs.zip (att ++ List.replicate lgs.length [])).map fun (lo, a) => { opts := lo.2, sinks := a }
+    sinks := sks }
+  let calls := (((kv.lookup "calls").getD "").splitOn ",").filterMap fun t =>
+    match t.splitOn ":" with
+    | [l, m] => match l.toNat?, strOfHex m with
+      | some li, some msg => some (li, msg)
+      | _, _ => none
+    | _ => none
+  let src := "/virtual/h3/site.cpp:1000".toList
+  match metaView src with
+  | none => ("ub metadata", 0, 0)
+  | some mv =>
+    let step := fun (acc : BState × List String × Bool × Nat) (c : Nat × Str) =>
+      let (st, outs, bad, k) := acc
+      let name := ((lgs[c.1]?).map (·.1)).getD []
+      let stmt : Stmt := {
+        time := [], threadId := [], threadName := [], processId := [], logger := name, levelDesc := "INFO".toList,
+        levelShort := "I".toList, src := src, caller := "site_plain".toList, tags := none, named := none }
+      let per := callLines false cfg st c.1 stmt mv c.2
+      let notLine := per.any fun kr => kr.2.any fun r => match r with | .line _ => false | _ => true
+      let txt := if per.isEmpty then "-" else "/".intercalate (per.map fun kr =>
+        s!"s{kr.1}:" ++ "+".intercalate (kr.2.filterMap fun r => match r with | .line s => some (hexOfStr s) | _ => none))
+      ((dispatch1 false cfg st c.1).1, outs ++ [s!"c{k}={txt}"], bad || notLine, k + 1)
+    let (_, outs, bad, _) := calls.foldl step (BState.init, [], false, 0)
+    let overrides := (sks.filter fun s => s.override.isSome).length
+    if bad then ("unsupported", lgs.length, overrides)
+    else (" ".intercalate ("ok" :: outs), lgs.length, overrides)
+
 def run : IO UInt32 := do
   let stdin ← IO.getStdin
   let mut t : Tally := {}
@@ -194,8 +241,22 @@ def run : IO UInt32 := do
       else if model != impl then
         t := { t with mismatches := t.mismatches + 1 }
         IO.println s!"MISMATCH line={lineNo} kind=be model={model.take 400} impl={impl.take 400} case={op.take 300}"
+    else if line.startsWith "mb " then
+      let (op, impl) := Drv.splitArrow line
+      let kv := kvOf (Drv.words op)
+      let (model, _nl, nov) := mbObs kv
+      t := { t with cases := t.cases + 1, mbCases := t.mbCases + 1, mbWithOverride := t.mbWithOverride + (if nov > 0 then 1 else 0) }
+      if model == "unsupported" then
+        t := { t with unsupported := t.unsupported + 1 }
+        IO.println s!"UNSUPPORTED line={lineNo} impl={impl.take 80}"
+      else if model.startsWith "ub" then
+        t := { t with ub := t.ub + 1 }
+        IO.println s!"OUT-OF-MODEL line={lineNo} {model} impl={impl.take 80}"
+      else if model != impl then
+        t := { t with mismatches := t.mismatches + 1 }
+        IO.println s!"MISMATCH line={lineNo} kind=mb model={model.take 500} impl={impl.take 500} case={op.take 300}"
     else pure ()
-  IO.println s!"DONE cases={t.cases} fmt={t.fmtCases} be={t.beCases} mismatches={t.mismatches} unsupported={t.unsupported} out_of_model={t.ub} lines={t.lines} ctor_errors={t.ctorErrors} format_errors={t.formatErrors} multi_field={t.multiField} with_spec={t.withSpec} be_multi_piece={t.beMultiPiece} be_runtime={t.beRuntime}"
+  IO.println s!"DONE cases={t.cases} fmt={t.fmtCases} be={t.beCases} mismatches={t.mismatches} unsupported={t.unsupported} out_of_model={t.ub} lines={t.lines} ctor_errors={t.ctorErrors} format_errors={t.formatErrors} multi_field={t.multiField} with_spec={t.withSpec} be_multi_piece={t.beMultiPiece} be_runtime={t.beRuntime} mb={t.mbCases} mb_with_override={t.mbWithOverride}"
   return (if t.mismatches == 0 then 0 else 1)
 
 /-- `driver pattern check` : read harness lines from stdin -/
